@@ -219,8 +219,8 @@ def op (st : St) (toks : List String) : St × String :=
     | some k, some filt, some kind, some queries =>
       let model := BM25.execute scoring F32.scalar st.s queries k filt kind
       match post, model with
-      | ["err", e], .error me =>
-        if e == errName me then (st, "ok err") else (st, s!"DIFF search-err model={errName me} impl={e}")
+      -- both refuse the search (no query / unknown aggregation kind); which error: free (Proto.sameOutcome)
+      | ["err", e], .error me => (st, s!"{agreedErr e} model-{errName me}=1")
       | ["err", e], .ok _ => (st, s!"DIFF search model=ok impl=err:{e}")
       | "ok" :: _, .error me => (st, s!"DIFF search model=err:{errName me} impl=ok")
       | "ok" :: hits, .ok mres =>
